@@ -504,6 +504,44 @@ func (g *gateState) hook(file, op string, key []byte, n int) bool {
 	return true
 }
 
+// fault mode: the write that would start token k is not performed and an error is returned to the
+// caller through the store API (once; the process lives on). Token counting as in hook().
+type faultState struct {
+	mu     sync.Mutex
+	armed  bool
+	k      int
+	fired  bool
+	tok    string
+	tokens []string
+	inSt   bool
+}
+
+var fgate faultState
+
+func (g *faultState) begin(armed bool, k int) {
+	g.mu.Lock()
+	defer g.mu.Unlock()
+	g.armed, g.k, g.fired, g.tok, g.tokens, g.inSt = armed, k, false, "", nil, false
+}
+
+func (g *faultState) hook(file, op string, key []byte, n int) error {
+	g.mu.Lock()
+	defer g.mu.Unlock()
+	t := classify(file, op, key, n, gate.labelOf)
+	isState := t == "st"
+	newTok := !(isState && g.inSt && len(g.tokens) > 0)
+	if g.armed && !g.fired && newTok && len(g.tokens) == g.k {
+		g.fired, g.tok = true, t
+		g.inSt = false
+		return fmt.Errorf("verif c05: injected write fault at %s", t)
+	}
+	if newTok {
+		g.tokens = append(g.tokens, t)
+	}
+	g.inSt = isState
+	return nil
+}
+
 // ---------------------------------------------------------------------------
 // child: run one scenario against the real chain
 
@@ -521,25 +559,27 @@ type blockInfo struct {
 }
 
 type child struct {
-	out      *hx.Out
-	blocks   map[string]*blockInfo // by label
-	byHash   map[common.Hash]*blockInfo
-	order    []string // labels in declaration order
-	txs      map[string]*types.Transaction
-	txOrder  []string
-	txByH    map[common.Hash]string
-	maxH     uint64
-	sdb      account.AccountDatabase
-	dead     bool // process death simulated, must restart before anything else
-	viol     []map[string]string
-	name     string
-	script   []string    // executed op lines so far
-	scnText  string      // the scenario as given (re-runnable with scn=<file>)
-	violPath string      // violations are appended here the moment they are found
-	handed   []handedOut // headers the chain handed out earlier (retention check)
-	search   bool
-	monitor  bool
-	genesis  common.Hash
+	out        *hx.Out
+	blocks     map[string]*blockInfo // by label
+	byHash     map[common.Hash]*blockInfo
+	order      []string // labels in declaration order
+	txs        map[string]*types.Transaction
+	txOrder    []string
+	txByH      map[common.Hash]string
+	maxH       uint64
+	sdb        account.AccountDatabase
+	dead       bool // process death simulated, must restart before anything else
+	viol       []map[string]string
+	name       string
+	script     []string    // executed op lines so far
+	scnText    string      // the scenario as given (re-runnable with scn=<file>)
+	violPath   string      // violations are appended here the moment they are found
+	handed     []handedOut // headers the chain handed out earlier (retention check)
+	search     bool
+	faultStats map[string]int
+	stop       bool
+	monitor    bool
+	genesis    common.Hash
 }
 
 var (
@@ -1056,6 +1096,9 @@ func (c *child) run(sc scenario) {
 		if len(f) == 0 || strings.HasPrefix(f[0], "#") {
 			continue
 		}
+		if c.stop {
+			break
+		}
 		if c.dead && f[0] != "restart" && f[0] != "restartc" && f[0] != "tx" && f[0] != "blk" {
 			continue // nothing can run between death and restart
 		}
@@ -1174,6 +1217,79 @@ func (c *child) run(sc scenario) {
 		case "addnil":
 			res, toks, _ := c.guarded(false, 0, 0, func() string { return resName(core.GetBlockChain().AddBlockOnChain(nil)) })
 			c.emit("addnil", res+" "+wstr(toks))
+		case "addf":
+			// write fault (an error returned by the store, not a death) in front of write token k of this delivery
+			bi := c.blocks[f[1]]
+			k, _ := strconv.Atoi(f[2])
+			old := core.VerifC05Head().Hash
+			fgate.begin(true, k)
+			res, _, _ := c.guarded(false, 0, 0, func() string { return resName(core.GetBlockChain().AddBlockOnChain(copyBlock(bi.block))) })
+			fgate.mu.Lock()
+			fired, tok := fgate.fired, fgate.tok
+			fgate.armed = false
+			fgate.mu.Unlock()
+			cls := strings.SplitN(tok, ":", 2)[0]
+			c.emit(fmt.Sprintf("addf %s %d", f[1], k), res+" fault="+tok)
+			if strings.HasPrefix(res, "PANIC") {
+				c.violation("fault-panic", fmt.Sprintf("addf %s %d: a store write returning an error (%s) made AddBlockOnChain panic: %s", f[1], k, tok, res))
+				c.dead = true
+				lastCrashBlock, preCrashHead = bi, old
+				continue
+			}
+			// asserted only for a plain extension and for the writes whose error the code checks; everything else
+			// (errors the code ignores, faults inside a reorg) is recorded in the statistics: store errors are outside
+			// the property's quantifier
+			own := k <= 6 && (cls != "bh" || tok == "bh:"+f[1]) && (cls != "hh" || tok == fmt.Sprintf("hh:%d", bi.block.Header.Height))
+			checked := fired && own && bi.block.Header.PreHash == old && (cls == "bh" || cls == "hh" || cls == "st" || cls == "cur")
+			if checked {
+				// the code checks this error: it must surface and the in-memory head must not move
+				if res != "failed" {
+					c.violation("fault-not-surfaced", fmt.Sprintf("addf %s %d: the store returned an error at %s but AddBlockOnChain answered %s", f[1], k, tok, res))
+				}
+				if core.VerifC05Head().Hash != old {
+					c.violation("fault-head-moved", fmt.Sprintf("addf %s %d: the head moved although the write %s failed", f[1], k, tok))
+				}
+			}
+			c.faultStats[cls+"->"+res]++
+			if fired && !checked {
+				// an error the code ignores (or a fault inside a reorg): the store is now in a state the property
+				// does not speak about; only "no panic, restart works" is asserted from here on
+				c.monitor = false
+			}
+			// the store has recovered; a restart must bring back a consistent chain, and for a checked error the old head
+			r2, _, _ := c.guarded(false, 0, 0, func() string {
+				if err := bootChain(); err != nil {
+					return "err"
+				}
+				return "ok"
+			})
+			c.emit("restart", r2+" W=?")
+			if r2 != "ok" {
+				c.violation("restart-panic", "restart after write fault at "+tok+": "+r2)
+				c.dead = true
+				continue
+			}
+			if fired && !checked {
+				// nothing more can be asserted about this store (e.g. a delete that failed silently inside a reorg
+				// leaves an index entry behind; further deliveries can then recurse without bound in addBlockOnChain)
+				c.stop = true
+				continue
+			}
+			if checked {
+				c.checkInv("after write fault at " + tok + " and restart")
+				if core.VerifC05Head().Hash != old {
+					c.violation("fault-head-moved", fmt.Sprintf("after write fault at %s and restart the head is not the old head", tok))
+				}
+				// … from which a retry succeeds
+				if bi.flag == "ok" && bi.block.Header.PreHash == old {
+					r3, _, _ := c.guarded(false, 0, 0, func() string { return resName(core.GetBlockChain().AddBlockOnChain(copyBlock(bi.block))) })
+					c.emit("add "+f[1], r3+" W=?")
+					if r3 != "succ" {
+						c.violation("fault-retry-failed", fmt.Sprintf("after write fault at %s and restart, delivering %s again answered %s", tok, f[1], r3))
+					}
+					c.checkInv("after retry of " + f[1])
+				}
+			}
 		case "add", "addc":
 			bi := c.blocks[f[1]]
 			armed := f[0] == "addc"
@@ -1277,6 +1393,7 @@ type childResult struct {
 	Kinds map[string]int      `json:"kinds"`
 	Res   map[string]int      `json:"res"`
 	N     int                 `json:"n"`
+	Fault map[string]int      `json:"fault"`
 }
 
 func runChild(a map[string]string) {
@@ -1290,10 +1407,13 @@ func runChild(a map[string]string) {
 		panic(err)
 	}
 	c := &child{out: out, blocks: map[string]*blockInfo{}, byHash: map[common.Hash]*blockInfo{}, txs: map[string]*types.Transaction{},
-		txByH: map[common.Hash]string{}, monitor: true, violPath: a["viol"]}
+		txByH: map[common.Hash]string{}, monitor: true, violPath: a["viol"], faultStats: map[string]int{}}
+	if !setFaultGate(fgate.hook) && a["fault"] == "1" {
+		panic("fault mode needs a build with -tags c05fault against a repository with hook H2b-c05")
+	}
 	c.run(sc)
 	out.Close()
-	cr := childResult{Viol: c.viol, Kinds: out.Kinds, Res: out.Results, N: out.N}
+	cr := childResult{Viol: c.viol, Kinds: out.Kinds, Res: out.Results, N: out.N, Fault: c.faultStats}
 	j, _ := json.Marshal(cr)
 	ioutil.WriteFile(a["result"], j, 0644)
 }
@@ -1327,7 +1447,34 @@ func main() {
 			}
 		}
 	}
-	if a["scn"] != "" { // replay of one scenario file
+	if mode == "fault" {
+		a["faultchild"] = "1"
+		// deterministic family first: a fault in front of every write token of an extension, and of a reorg
+		for k := 0; k < 10; k++ {
+			scs = append(scs, scenario{name: fmt.Sprintf("fault/ext%d", k), lines: []string{"tx t0", "tx t1",
+				"blk b1 b0 1 1 5 t0 ok", "blk b2 b1 2 1 5 t1 ok", "blk b3 b2 4 1 5 - ok", "pool t1",
+				"add b1", fmt.Sprintf("addf b2 %d", k), "add b2", "add b3"}})
+		}
+		for k := 0; k < 18; k++ {
+			scs = append(scs, scenario{name: fmt.Sprintf("fault/reorg%d", k), lines: []string{"tx t0", "tx t1",
+				"blk b1 b0 1 1 5 t0 ok", "blk b2 b1 2 1 5 - ok", "blk b3 b0 1 5 5 t1 ok",
+				"add b1", "add b2", fmt.Sprintf("addf b3 %d", k), "restart", "add b3"}})
+		}
+		n := hx.ArgInt(a, "n", 40)
+		for i := 0; i < n; i++ {
+			sc := genScenario(r.Fork(), fmt.Sprintf("fgen%d", i), false, false)
+			for j, l := range sc.lines {
+				if strings.HasPrefix(l, "addc ") {
+					sc.lines[j] = "add " + strings.Fields(l)[1]
+				} else if strings.HasPrefix(l, "restartc") {
+					sc.lines[j] = "restart"
+				} else if strings.HasPrefix(l, "add b") && r.Chance(1, 3) {
+					sc.lines[j] = fmt.Sprintf("addf %s %d", strings.Fields(l)[1], r.Intn(10))
+				}
+			}
+			scs = append(scs, sc)
+		}
+	} else if a["scn"] != "" { // replay of one scenario file
 		raw, err := ioutil.ReadFile(a["scn"])
 		if err != nil {
 			panic(err)
@@ -1386,7 +1533,7 @@ func main() {
 				ioutil.WriteFile(scn, []byte(strings.Join(j.sc.lines, "\n")), 0644)
 				cctx, cancel := context.WithTimeout(context.Background(), 120*time.Second)
 				cmd := exec.CommandContext(cctx, self, "child=1", "scn="+scn, "name="+j.sc.name, "ops="+filepath.Join(d, "ops"), "obs="+filepath.Join(d, "obs"),
-					"result="+filepath.Join(d, "result"), "viol="+filepath.Join(d, "viol"))
+					"result="+filepath.Join(d, "result"), "viol="+filepath.Join(d, "viol"), "fault="+a["faultchild"])
 				cmd.Dir = d
 				cmd.Env = append(os.Environ(), "GOMAXPROCS=2")
 				outb, err := cmd.CombinedOutput()
@@ -1430,6 +1577,7 @@ func main() {
 		panic(err)
 	}
 	kinds, res := map[string]int{}, map[string]int{}
+	faultStats := map[string]int{}
 	total := 0
 	var viol []map[string]string
 	nfail := 0
@@ -1445,6 +1593,9 @@ func main() {
 		for k, v := range results[i].Res {
 			res[k] += v
 		}
+		for k, v := range results[i].Fault {
+			faultStats[k] += v
+		}
 		total += results[i].N
 		viol = append(viol, results[i].Viol...)
 		if fails[i] != "" {
@@ -1459,7 +1610,7 @@ func main() {
 	if len(viol) > 40 {
 		viol = viol[:40]
 	}
-	st := map[string]interface{}{"ops": total, "scenarios": len(scs), "kinds": kinds, "results": res, "violations": viol, "child_failures": nfail, "mode": mode}
+	st := map[string]interface{}{"ops": total, "scenarios": len(scs), "kinds": kinds, "results": res, "violations": viol, "child_failures": nfail, "mode": mode, "fault_outcomes": faultStats}
 	j, _ := json.Marshal(st)
 	fmt.Println("STATS " + string(j))
 }
